@@ -769,6 +769,13 @@ class _Unroll(ast.NodeTransformer):
     self.known_iters = set(known_iters)
 
   def _literal(self, e):
+    """a literal, a plain name / dotted attribute (read once when the display
+    is built; visit_For checks that the body does not re-bind it), or a tuple
+    of those"""
+    if isinstance(e, ast.Tuple):
+      return all(self._literal(x) for x in e.elts)
+    if isinstance(e, ast.Name) or (isinstance(e, ast.Attribute) and dotted(e)):
+      return True
     try:
       ast.literal_eval(e)
       return True
@@ -813,11 +820,22 @@ class _Unroll(ast.NodeTransformer):
       return n
     if sum(1 for st in n.body for _ in ast.walk(st)) > 40 * self.MAX_BODY:
       return n
+    read = {x.id for x in ast.walk(it) if isinstance(x, ast.Name)}
+    read_attrs = {x.attr for x in ast.walk(it) if isinstance(x, ast.Attribute)}
     for st in n.body:
       for x in ast.walk(st):
         if isinstance(x, ast.Name) and x.id in names and isinstance(
             x.ctx, (ast.Store, ast.Del)):
           return n
+        # the display is evaluated once: what it reads must not change
+        if isinstance(x, ast.Name) and x.id in read and isinstance(
+            x.ctx, (ast.Store, ast.Del)):
+          return n
+        if isinstance(x, ast.Attribute) and x.attr in read_attrs and \
+            isinstance(x.ctx, (ast.Store, ast.Del)):
+          return n
+        if read_attrs and isinstance(x, ast.Call):
+          return n          # a call may re-bind an attribute that is read
         if isinstance(x, (ast.Lambda, ast.FunctionDef)):
           return n          # late binding of the loop variable
     body = self._structure_continues(n.body)
